@@ -480,7 +480,8 @@ impl<TokenIter: Iterator<Item = Result<Token>>> Iterator for Parser<TokenIter> {
     }
 }
 
-fn create_syntax_binding() -> Rc<LexicalScope<Transformer>> {
+pub(crate) fn create_syntax_binding() -> Rc<LexicalScope<Transformer>> {
+    // the derived forms of grammar.sld: shared, and never written after initialisation
     thread_local! {static BINDINGS: Rc<LexicalScope<Transformer>> = {
             let mut parser = Parser::from_lexer_primary_syntax(Lexer::from_char_stream(
                 include_str!("grammar.sld").chars(),
@@ -489,7 +490,9 @@ fn create_syntax_binding() -> Rc<LexicalScope<Transformer>> {
             parser.syntax_env
         };
     }
-    BINDINGS.with(|bindings| bindings.clone())
+    // every caller gets a syntax environment of its own on top of the shared base, so that
+    // define-syntax in one parser / interpreter is invisible to all others
+    BINDINGS.with(|bindings| Rc::new(LexicalScope::new_child(bindings.clone())))
 }
 
 impl<TokenIter: Iterator<Item = Result<Token>>> Parser<TokenIter> {
